@@ -492,8 +492,64 @@ impl OsIpcChannel {
 pub struct OsIpcReceiverSet {
     incrementor: RangeFrom<u64>,
     poll: Poll,
-    pollfds: HashMap<Token, PollEntry, BuildHasherDefault<FnvHasher>>,
+    pollfds: PollMap,
     events: Events,
+}
+
+#[cfg(not(kani))]
+type PollMap = HashMap<Token, PollEntry, BuildHasherDefault<FnvHasher>>;
+
+#[cfg(not(kani))]
+fn new_poll_map() -> PollMap {
+    HashMap::with_hasher(BuildHasherDefault::<FnvHasher>::default())
+}
+
+// Verification hook: hashbrown's group probing is out of the model checker's reach; under
+// `cfg(kani)` the member table is an association list offering the map operations used here.
+#[cfg(kani)]
+type PollMap = verif_map::AssocMap;
+
+#[cfg(kani)]
+fn new_poll_map() -> PollMap {
+    verif_map::AssocMap(Vec::new())
+}
+
+#[cfg(kani)]
+mod verif_map {
+    use super::{PollEntry, Token};
+
+    pub struct AssocMap(pub Vec<(Token, PollEntry)>);
+
+    impl AssocMap {
+        pub fn insert(&mut self, k: Token, v: PollEntry) -> Option<PollEntry> {
+            let old = self.remove(&k);
+            self.0.push((k, v));
+            old
+        }
+        pub fn get(&self, k: &Token) -> Option<&PollEntry> {
+            let mut i = 0;
+            while i < self.0.len() {
+                if self.0[i].0 == *k {
+                    return Some(&self.0[i].1);
+                }
+                i += 1;
+            }
+            None
+        }
+        pub fn remove(&mut self, k: &Token) -> Option<PollEntry> {
+            let mut i = 0;
+            while i < self.0.len() {
+                if self.0[i].0 == *k {
+                    return Some(self.0.remove(i).1);
+                }
+                i += 1;
+            }
+            None
+        }
+        pub fn values(&self) -> impl Iterator<Item = &PollEntry> {
+            self.0.iter().map(|e| &e.1)
+        }
+    }
 }
 
 impl Drop for OsIpcReceiverSet {
@@ -507,11 +563,10 @@ impl Drop for OsIpcReceiverSet {
 
 impl OsIpcReceiverSet {
     pub fn new() -> Result<OsIpcReceiverSet, UnixError> {
-        let fnv = BuildHasherDefault::<FnvHasher>::default();
         Ok(OsIpcReceiverSet {
             incrementor: 0..,
             poll: Poll::new()?,
-            pollfds: HashMap::with_hasher(fnv),
+            pollfds: new_poll_map(),
             events: Events::with_capacity(10),
         })
     }
